@@ -1,3 +1,4 @@
+import ScenicModel.Gen.Frames
 /-!
 # FramesCore — executable model of Scenic's vector / orientation algebra and of the geometric
 specifiers and operators built on it (property C07).
@@ -19,9 +20,14 @@ Conventions mirrored from `/repo` (file, line numbers at the pinned commit):
 * `atan2`/`hypot` results (`sphericalCoordinates`, `angleTo`, `altitudeTo`) are expressed through
   the *witnessed* square roots `h = hypot(x,y)`, `rho = hypot(x,y,z)` supplied by the caller.
 
-This file holds everything that does not depend on generated data; `Model/Frames.lean` adds the
-definitions that use the formulas / tables of `Gen/Frames.lean` (regenerated from `/repo` on every run):
-the six offset formulas of `left of … below`, the `on` contact offset, the side/corner tables.
+The primitives whose formulas are *regenerated from `/repo` on every run* (`Gen/Frames.lean`) are
+instantiated on that data here: `rotatedBy` (`Vector.rotatedBy`), the SciPy axis sequence of `euler`
+(`Orientation._fromEuler`), the angle formulas of `sphericalCoordinates` / `azimuthTo` / `altitudeTo` /
+`apparentHeadingAtPoint` (compiled to `(cos, sin)` arithmetic around one `atan2`), the step rule of
+`followFrom`, and the table of the `facing toward` family. `Lemmas/Frames.lean` proves the closed forms
+(`euler_eq`, `azimuthOf_eq`, …) those definitions must have — these are side conditions on the generated data.
+`Model/Frames.lean` adds the six offset formulas of `left of … below`, the `on` contact offset and the
+side / corner tables.
 -/
 namespace Scenic.Frames
 
@@ -151,11 +157,28 @@ def rotZ (a : Ang α) : Mat3 α := ⟨⟨a.c, -a.s, 0⟩, ⟨a.s, a.c, 0⟩, ⟨
 def rotX (a : Ang α) : Mat3 α := ⟨⟨1, 0, 0⟩, ⟨0, a.c, -a.s⟩, ⟨0, a.s, a.c⟩⟩
 def rotY (a : Ang α) : Mat3 α := ⟨⟨a.c, 0, a.s⟩, ⟨0, 1, 0⟩, ⟨-a.s, 0, a.c⟩⟩
 
-/-- `Orientation.fromEuler(yaw, pitch, roll)`: intrinsic `ZXY` (`Rotation.from_euler("ZXY", …)`) -/
-def euler (yaw pitch roll : Ang α) : Mat3 α := (rotZ yaw).mul ((rotX pitch).mul (rotY roll))
+/-- one elementary rotation of a SciPy axis sequence; axes are encoded as in `Gen/Frames.lean`
+    (`X = 0, Y = 1, Z = 2` intrinsic; the extrinsic lower-case axes are not modelled: identity) -/
+def rotAxis : Nat → Ang α → Mat3 α
+  | 0, a => rotX a
+  | 1, a => rotY a
+  | 2, a => rotZ a
+  | _, _ => Mat3.one
 
-/-- `Vector.rotatedBy(angle)` (2-D rotation, `z` unchanged) -/
-def rotatedBy (v : Vec3 α) (a : Ang α) : Vec3 α := ⟨a.c * v.x - a.s * v.y, a.s * v.x + a.c * v.y, v.z⟩
+/-- `Rotation.from_euler(axes, angles)` for an intrinsic (upper-case) axis sequence: the product of the
+    elementary rotations in the order given -/
+def eulerSeq : List Nat → List (Ang α) → Mat3 α
+  | [c], [a] => rotAxis c a
+  | c :: cs, a :: as => (rotAxis c a).mul (eulerSeq cs as)
+  | _, _ => Mat3.one
+
+/-- `Orientation.fromEuler(yaw, pitch, roll)`: `Rotation.from_euler(<axes>, [yaw, pitch, roll])` with the
+    axis sequence regenerated from the source (intrinsic `ZXY`; `euler_eq`) -/
+def euler (yaw pitch roll : Ang α) : Mat3 α := eulerSeq Gen.Frames.fromEulerAxes [yaw, pitch, roll]
+
+/-- `Vector.rotatedBy(angle)` (2-D rotation, `z` unchanged); formula regenerated from the source -/
+def rotatedBy (v : Vec3 α) (a : Ang α) : Vec3 α :=
+  Vec3.ofTriple (Gen.Frames.rotatedByFormula a.c a.s v.x v.y v.z)
 
 /-! ## points, frames, boxes -/
 
@@ -197,20 +220,36 @@ def sideVec (d : Dims α) (t : Int × Int × Int) : Vec3 α :=
 
 variable [DecidableEq α]
 
-/-- `theta = atan2(y, x) - π/2` as `(cos, sin)`; `h = hypot(x, y)` is supplied by the caller.
-    `atan2(0, 0) = 0`, hence `theta = -π/2` for a vertical vector. -/
+/-- `(cos, sin)` of `atan2(A, B)` for `ab = (A, B)`; the witness `w = hypot(A, B)` is supplied by the
+    caller; `atan2(0, 0) = 0` -/
+def atan2CS (ab : α × α) (w : α) : Ang α := if w = 0 then ⟨1, 0⟩ else ⟨ab.2 / w, ab.1 / w⟩
+
+def Ang.ofPair (p : α × α) : Ang α := ⟨p.1, p.2⟩
+
+/-- `sphericalCoordinates()[1]` (`theta = atan2(y, x) - π/2`, formula regenerated from the source) as
+    `(cos, sin)`; `h = hypot(x, y)` is supplied by the caller. Closed form: `azimuthOf_eq`
+    (`atan2(0, 0) = 0`, hence `theta = -π/2` for a vertical vector). -/
 def azimuthOf (d : Vec3 α) (h : α) : Ang α :=
-  if h = 0 then ⟨0, -1⟩ else ⟨d.y / h, -d.x / h⟩
+  let t := atan2CS (Gen.Frames.sphThetaArgs d.x d.y d.z h) h
+  Ang.ofPair (Gen.Frames.sphThetaPost t.c t.s)
 
-/-- `phi = atan2(z, hypot(x, y))`; `rho = hypot(x, y, z)` supplied by the caller -/
+/-- `sphericalCoordinates()[2]` (`phi = atan2(z, hypot(x, y))`, regenerated); `rho = hypot(x, y, z)`
+    supplied by the caller. Closed form: `altitudeOf_eq`. -/
 def altitudeOf (d : Vec3 α) (h rho : α) : Ang α :=
-  if rho = 0 then ⟨1, 0⟩ else ⟨h / rho, d.z / rho⟩
+  let t := atan2CS (Gen.Frames.sphPhiArgs d.x d.y d.z h) rho
+  Ang.ofPair (Gen.Frames.sphPhiPost t.c t.s)
 
-/-- `Vector.angleTo` = `azimuthTo`: `normalizeAngle(atan2(dy, dx) - π/2)` -/
-def azimuthTo (a b : Vec3 α) (h : α) : Ang α := azimuthOf (b.sub a) h
+/-- `Vector.angleTo` = `azimuthTo`: `normalizeAngle(atan2(dy, dx) - π/2)` (regenerated; `azimuthTo_eq`) -/
+def azimuthTo (a b : Vec3 α) (h : α) : Ang α :=
+  let d := b.sub a
+  let t := atan2CS (Gen.Frames.azimuthToArgs d.x d.y d.z h) h
+  Ang.ofPair (Gen.Frames.azimuthToPost t.c t.s)
 
-/-- `Vector.altitudeTo` -/
-def altitudeTo (a b : Vec3 α) (h rho : α) : Ang α := altitudeOf (b.sub a) h rho
+/-- `Vector.altitudeTo` (regenerated; `altitudeTo_eq`) -/
+def altitudeTo (a b : Vec3 α) (h rho : α) : Ang α :=
+  let d := b.sub a
+  let t := atan2CS (Gen.Frames.altitudeToArgs d.x d.y d.z h) rho
+  Ang.ofPair (Gen.Frames.altitudeToPost t.c t.s)
 
 /-- square of `distance from X to Y` (`Vector.distanceTo`) -/
 def distSq (a b : Vec3 α) : α := (b.sub a).normSq
@@ -223,11 +262,8 @@ def beyond (pos off fromPt : Vec3 α) (h rho : α) : Vec3 α :=
   pos.add ((euler (azimuthOf d h) (altitudeOf d h rho) Ang.zero).mulVec off)
 
 /-- `beyond … from F`: the `parentOrientation` that is specified. `fromOri` is the orientation of `F`
-    when `F` is an `OrientedPoint`/`Object`; `inherits` is the generated flag saying whether the
-    `isA(fromPt, OrientedPoint)` test is reached before `fromPt` has been coerced to a plain vector
-    (after the coercion it can never succeed and the global orientation is used). -/
-def beyondParent (inherits : Bool) (fromOri : Option (Mat3 α)) : Mat3 α :=
-  if inherits then fromOri.getD Mat3.one else Mat3.one
+    when `F` is an `OrientedPoint`/`Object` (`none` for a plain vector: global orientation). -/
+def beyondParent (fromOri : Option (Mat3 α)) : Mat3 α := fromOri.getD Mat3.one
 
 /-- `offset by v` (`veneer.py:1619`): position and parentOrientation -/
 def offsetBy (egoPos : Vec3 α) (egoOri : Mat3 α) (off : Vec3 α) : Vec3 α × Mat3 α :=
@@ -246,24 +282,37 @@ def facingLocal (parent target : Mat3 α) : Mat3 α := parent.transpose.mul targ
 def facingDirection (away : Bool) (parent : Mat3 α) (position target : Vec3 α) : Vec3 α :=
   parent.transpose.mulVec (if away then position.sub target else target.sub position)
 
-/-- `apparently facing H from P`: the yaw that is specified. `usesParent` is the generated flag
-    saying whether the helper takes `parentOrientation` into account. -/
-def apparentlyFacingYaw (usesParent : Bool) (parent : Mat3 α) (position fromPt : Vec3 α) (heading : Ang α)
-    (h : α) : Ang α :=
-  if usesParent then (azimuthOf (parent.transpose.mulVec (position.sub fromPt)) h).add heading
-  else (azimuthTo fromPt position h).add heading
+/-- a member of the `facing toward` family (`facing [directly] toward / away from T`,
+    `apparently facing H from T`), described by its row `(away, pitch, addHeading)` of the generated
+    `facingTable`: the yaw, and the pitch if it is specified too. The spherical angles are those of
+    `±(T - position)` expressed in the parent frame. -/
+def facingFamily (row : Bool × Bool × Bool) (parent : Mat3 α) (position target : Vec3 α) (heading : Ang α)
+    (h rho : α) : Ang α × Option (Ang α) :=
+  let dir := facingDirection row.1 parent position target
+  let yaw := azimuthOf dir h
+  (if row.2.2 then yaw.add heading else yaw, if row.2.1 then some (altitudeOf dir h rho) else none)
+
+/-- the same, by the name of the specifier function in `veneer.py` (generated table) -/
+def facingByName (name : String) (parent : Mat3 α) (position target : Vec3 α) (heading : Ang α)
+    (h rho : α) : Option (Ang α × Option (Ang α)) :=
+  (Gen.Frames.facingTable.lookup name).map fun row => facingFamily row parent position target heading h rho
+
+/-- `apparently facing H from P`: the yaw that is specified — the azimuth, *in the parent frame*, of the
+    line of sight from `P` to the object, plus `H` -/
+def apparentlyFacingYaw (parent : Mat3 α) (position fromPt : Vec3 α) (heading : Ang α) (h : α) : Ang α :=
+  (azimuthOf (parent.transpose.mulVec (position.sub fromPt)) h).add heading
 
 /-! ## operators (`veneer.py:1143-1466`) -/
 
 /-- `relative heading of X from Y` on yaw angles: `normalizeAngle(X.yaw - Y.yaw)` -/
 def relativeHeading (x y : Ang α) : Ang α := x.sub y
 
-/-- `apparentHeadingAtPoint(point, heading, base)` (`geometry.py:92`):
-    `heading + π/2 - atan2(oy - y, ox - x)`; `h = hypot(ox - x, oy - y)` -/
+/-- `apparentHeadingAtPoint(point, heading, base)` (`geometry.py`):
+    `heading + π/2 - atan2(oy - y, ox - x)` (formula regenerated from the source; closed form
+    `apparentHeading_eq`); `h = hypot(ox - x, oy - y)` -/
 def apparentHeading (point : Vec3 α) (heading : Ang α) (base : Vec3 α) (h : α) : Ang α :=
-  let dx := point.x - base.x
-  let dy := point.y - base.y
-  if h = 0 then heading.quarter else heading.add ⟨dy / h, dx / h⟩
+  let t := atan2CS (Gen.Frames.apparentHeadingArgs point.x point.y base.x base.y) h
+  Ang.ofPair (Gen.Frames.apparentHeadingPost heading.c heading.s t.c t.s)
 
 /-- `OrientedPoint.distancePast(vec)`: `(position - vec).rotatedBy(-heading).y` -/
 def distancePast (pos : Vec3 α) (heading : Ang α) (v : Vec3 α) : α :=
@@ -325,8 +374,9 @@ def following (field : Vec3 α → Mat3 α) (step : α) (n : Nat) (p : Vec3 α) 
 
 end
 
-/-- number of steps taken by `followFrom`: `max(minSteps, ceil(dist / defaultStepSize))` -/
+/-- number of steps taken by `followFrom` (`max(minSteps, ceil(dist / defaultStepSize))`; regenerated
+    from the source, characterised by `follow_step_rule`) -/
 def followNumSteps (minSteps : Nat) (dist stepSize : Rat) : Nat :=
-  max minSteps (dist / stepSize).ceil.toNat
+  Gen.Frames.followNumSteps minSteps dist stepSize
 
 end Scenic.Frames
